@@ -14,7 +14,8 @@ ERRMAP = [
     ("negative start time", 1), ("negative length", 2), ("starts early", 3), ("ends late", 4),
     ("Need at least one chunk", 20), ("different data types", 21), ("different run ids", 22),
     ("overlapping or out-of-order", 23), ("Target size is too small", 30), ("infinite loop", 31),
-    ("argmin of an empty", 32),
+    ("argmin of an empty", 32), ("at least one chunk to merge", 40), ("different data kinds", 41),
+    ("different run_ids", 42), ("different number of items", 43), ("different time ranges", 44),
 ]
 
 
@@ -118,8 +119,10 @@ def impl_split_array(rows, t, early, enc):
     return (len(l), len(r), int(t2))
 
 
-def diff_unit(ctx, unit, cases, lines, impl_fn, spec_fn, nontrivial_fn, show_case, dist_fn=None):
-    """Generic correspondence loop: run model on `lines`, impl on `cases`, diff, evaluate spec."""
+def diff_unit(ctx, unit, cases, lines, impl_fn, spec_fn, nontrivial_fn, show_case, dist_fn=None, search_fn=None):
+    """Generic correspondence loop: run model on `lines`, impl on `cases`, diff, evaluate spec.
+    On a model/implementation disagreement without a failing input, `search_fn()` supplies further
+    cases (the thorough generator) on which only the implementation and the law are evaluated."""
     mout = lib.run_model_parallel("C07", lines)
     nontriv = set()
     dist = {}
@@ -144,7 +147,19 @@ def diff_unit(ctx, unit, cases, lines, impl_fn, spec_fn, nontrivial_fn, show_cas
             bad += 1
         if bad > 6:
             break
-    ctx.count(unit, len(cases), len(nontriv), dist)
+    n_search = 0
+    if bad and search_fn and not any((not v["nfi"]) and v["unit"] == unit for v in ctx.violations):
+        # search the implementation for a concrete failing input (DESIGN 2.2 step 5)
+        for j, case in enumerate(search_fn()):
+            n_search += 1
+            out = impl_fn(case, j)
+            reason = spec_fn(case, out)
+            if reason:
+                ctx.violation(unit, "%s violates the chunking law: %s (impl %s) [found by the escalated search]"
+                              % (unit, reason, out), {"input": show_case(case), "impl": out, "unit": unit})
+                break
+        ctx.notes.append("%s: escalated search evaluated %d further cases" % (unit, n_search))
+    ctx.count(unit, len(cases) + n_search, len(nontriv), dist)
     if cases:
         k = len(cases) // 3
         ctx.sample({"unit": unit, "case": show_case(cases[k]), "model": mout[k]})
@@ -444,14 +459,15 @@ def rechunk_impl(cs, enc):
     return "ok " + " ".join(show_real(o) for o in outs)
 
 
-def unit_rechunk(ctx):
+def rechunk_cases(ctx, thorough):
     cases = []
-    nmax = 5 if ctx.thorough else 4
-    # starts are multiples of 600 ns so gaps fall on both sides of the 1000 ns threshold
+    nmax = 5 if thorough else 4
+    # starts are multiples of 600 ns so gaps fall on both sides of the 1000 ns threshold; lengths up to
+    # 1500 ns so that a long early row can span a later inter-row distance
     for n in range(1, nmax + 1):
         for steps in itertools.product([0, 1, 2, 3], repeat=n - 1):
-            for lens in itertools.product([0, 100, 700], repeat=n):
-                if not ctx.thorough and ctx.rng.random() < (0.0 if n <= 3 else 0.8):
+            for lens in itertools.product([0, 100, 700, 1500], repeat=n):
+                if not thorough and ctx.rng.random() < (0.0 if n <= 3 else 0.9):
                     continue
                 t = 600
                 rows = []
@@ -461,19 +477,24 @@ def unit_rechunk(ctx):
                     rows.append((t, t + lens[i], i, 0))
                 e = max(r[1] for r in rows)
                 for parts in partitions(ctx.rng, rows, 0, e + 100, exhaustive=False, kmax=3):
-                    for tgt in ([1, 2, 3] if ctx.thorough else [1, 2]):
+                    for tgt in ([1, 2, 3] if thorough else [1, 2]):
                         cases.append([achunk(a, b, p, tgt=tgt) for a, b, p in parts])
-    for _ in range(3000 if ctx.thorough else 300):
+    for _ in range(4000 if thorough else 400):
         n = ctx.rng.randint(1, 30)
         t = ctx.rng.randint(0, 50)
         rows = []
         for i in range(n):
             t += ctx.rng.choice([0, 3, 400, 900, 1001, 1500, 5000])
-            rows.append((t, t + ctx.rng.choice([0, 1, 50, 600, 1200]), i, 0))
+            rows.append((t, t + ctx.rng.choice([0, 1, 50, 600, 1200, 2500]), i, 0))
         e = max(r[1] for r in rows) + ctx.rng.choice([0, 7])
         parts = ctx.rng.choice(partitions(ctx.rng, rows, 0, e, exhaustive=False, kmax=4))
         tgt = ctx.rng.randint(1, 8)
         cases.append([achunk(a, b, p, tgt=tgt) for a, b, p in parts])
+    return cases
+
+
+def unit_rechunk(ctx):
+    cases = rechunk_cases(ctx, ctx.thorough or ctx.escalated())
     lines = ["rechunk %d %s" % (len(cs), " ".join(enc_chunk(c) for c in cs)) for cs in cases]
 
     def impl_fn(case, idx):
@@ -482,7 +503,8 @@ def unit_rechunk(ctx):
     diff_unit(ctx, "rechunk", cases, lines, impl_fn, spec_rechunk,
               lambda c, o: sum(len(x["rows"]) for x in c) >= 2 and o.count("[") >= 2,
               lambda c: {"stream": c},
-              lambda c, o: ("%d->%d chunks" % (len(c), o.count("["))) if o.startswith("ok") else o)
+              lambda c, o: ("%d->%d chunks" % (len(c), o.count("["))) if o.startswith("ok") else o,
+              search_fn=lambda: rechunk_cases(ctx, True))
 
 
 # ------------------------------------------------------------------------------------------
@@ -558,7 +580,98 @@ def unit_continuity(ctx):
               lambda c: {"stream": c}, lambda c, o: o.split()[0])
 
 
-UNITS = {"split_array": unit_split_array, "chunk_split": unit_chunk_split, "concatenate": unit_concat,
+# ------------------------------------------------------------------------------------------
+# Chunk.merge (same-kind, column-wise)
+# ------------------------------------------------------------------------------------------
+
+def fname(fid):
+    return {1: "time", 2: "endtime"}.get(fid, "f%d" % fid)
+
+
+def real_kchunk(k):
+    names = [fid for fid, _ in k["cols"]]
+    dt = np.dtype([(fname(f), np.int64) for f in names])
+    a = np.zeros(k["len"], dtype=dt)
+    for fid, col in k["cols"]:
+        a[fname(fid)] = col
+    return strax.Chunk(start=k["s"], end=k["e"], data=a, dtype=dt, data_type="dt%03d" % k["dt"],
+                       data_kind="k%d" % k["kind"], run_id=str(k["run"]))
+
+
+def enc_kchunk(k):
+    out = [k["s"], k["e"], k["len"], k["kind"], k["run"], k["dt"], len(k["cols"])]
+    for fid, col in k["cols"]:
+        out += [fid, len(col)] + list(col)
+    return " ".join(str(int(x)) for x in out)
+
+
+def unit_merge(ctx):
+    cases = []
+    for _ in range(4000 if ctx.thorough else 1200):
+        k = ctx.rng.randint(2, 4)
+        n = ctx.rng.randint(0, 4)
+        t = sorted(ctx.rng.randint(0, 20) for _ in range(n))
+        e = [x + ctx.rng.randint(0, 3) for x in t]
+        s, end = 0, 30
+        dts = ctx.rng.sample(range(1, 40), k)
+        cs = []
+        for j in range(k):
+            extra = ctx.rng.sample([10, 11, 12, 13], ctx.rng.randint(0, 2))
+            cols = [(1, list(t)), (2, list(e))]
+            if ctx.rng.random() < 0.3:
+                cols = cols[::-1]
+            cols += [(f, [ctx.rng.randint(0, 99) for _ in range(n)]) for f in extra]
+            cs.append({"s": s, "e": end, "len": n, "kind": 1, "run": 7, "dt": dts[j], "cols": cols})
+        u = ctx.rng.random()
+        if u < 0.08:
+            cs[-1]["kind"] = 2
+        elif u < 0.16:
+            cs[-1]["run"] = 8
+        elif u < 0.24 and n > 0:
+            cs[-1]["len"] = n - 1
+            cs[-1]["cols"] = [(f, col[:-1]) for f, col in cs[-1]["cols"]]
+        elif u < 0.32:
+            cs[-1]["e"] = end + 1
+        cases.append((99, cs))
+    lines = ["merge %d %d %s" % (newdt, len(cs), " ".join(enc_kchunk(k) for k in cs)) for newdt, cs in cases]
+
+    def impl_fn(case, idx):
+        newdt, cs = case
+
+        def f():
+            m = strax.Chunk.merge([real_kchunk(k) for k in cs], data_type="dt%03d" % newdt)
+            inv = {"time": 1, "endtime": 2}
+            cols = ["%d:%s" % (inv.get(nm, int(nm[1:]) if nm[0] == "f" else -1), ",".join(str(int(v)) for v in m.data[nm]))
+                    for nm in m.data.dtype.names]
+            return "ok %d %d %s" % (m.start, m.end, ";".join(cols))
+        return guarded(f)
+
+    def spec_fn(case, out):
+        newdt, cs = case
+        valid = all(len({k[key] for k in cs}) == 1 for key in ("kind", "run", "len", "s", "e"))
+        if out.startswith("err"):
+            return "merge rejected equal-kind, equal-run, equal-length, equal-range inputs: " + out if valid else None
+        if not valid:
+            return "merge accepted mismatched inputs"
+        got = {}
+        for part in out.split(" ", 3)[3].split(";") if len(out.split(" ", 3)) > 3 and out.split(" ", 3)[3] else []:
+            f, col = part.split(":")
+            if int(f) in got:
+                return "duplicate column in merged chunk"
+            got[int(f)] = [int(v) for v in col.split(",")] if col else []
+        want = {}
+        for k in cs:                       # later inputs win on collisions
+            for f, col in k["cols"]:
+                want[f] = list(col)
+        if got != want:
+            return "merged columns are not the union with the last input winning"
+        return None
+
+    diff_unit(ctx, "merge", cases, lines, impl_fn, spec_fn, lambda c, o: c[1][0]["len"] >= 1,
+              lambda c: {"new_dtype": c[0], "chunks": c[1]}, lambda c, o: o.split()[0] + (" " + o.split()[1] if o.startswith("err") else ""))
+
+
+UNITS = {"merge": unit_merge, "split_array": unit_split_array, "chunk_split": unit_chunk_split, "concatenate": unit_concat,
          "rechunk": unit_rechunk, "mk_chunk": unit_mk_chunk, "continuity_check": unit_continuity}
 
 
